@@ -44,6 +44,7 @@ MEMO_GRAMMARS = [
     ('cut', "start: x ~ 'b' | x 'a' | y ;\n\nx: 'a' ;\n\ny: x x | 'b' ;\n"),
     ('named', "start: l:x r:(x | y) | l:y ;\n\nx: v:'a' w:['b'] ;\n\ny: 'b' {x} ;\n"),
     ('stmt', "start: x 'b' 'a' | x 'a' | y ;\n\nx: 'a' | 'b' ;\n\ny: 'a' 'a' | 'a' | 'b' ;\n"),
+    ('nostak', "start: x y 'a' | x y ;\n\n@nostak\nx: 'a' | 'b' ;\n\n@nomemo\ny: 'b' | x ;\n"),
 ]
 
 
@@ -86,7 +87,7 @@ def shard_c01(m, items, inputs=()):
 
 
 def shard_c05(m, items, inputs=(), CUT_CONFIGS=None):
-    for name, exp, extra, _ne, _nx in items:
+    for name, exp, extra, _ne, _nx, _b in items:
         g = c05.mk(exp, extra)
         model = impl.compile_text(gs.render_grammar(g))
         m.add('programs')
